@@ -719,6 +719,21 @@ pub fn do_env(rig: &mut Rig, act: &Value, log: &mut Vec<Value>) {
             rig.ins[i].close();
             log.push(json!({"ev": "close", "i": i + 1}));
         }
+        "feed_all" => {
+            // every input gets as much as fits (hand-written schedules for any arity)
+            for (i, p) in rig.ins.iter_mut().enumerate() {
+                let n = p.feed(usize::MAX >> 1);
+                log.push(json!({"ev": "feed", "i": i + 1, "k": n}));
+            }
+        }
+        "close_all_if_done" => {
+            for (i, p) in rig.ins.iter_mut().enumerate() {
+                if p.left() == 0 && !p.closed() {
+                    p.close();
+                    log.push(json!({"ev": "close", "i": i + 1}));
+                }
+            }
+        }
         "close_if_done" => {
             // close the input only once all of its data has been delivered (hand-written schedules)
             let i = act["i"].as_u64().unwrap_or(1) as usize - 1;
